@@ -58,3 +58,37 @@ def pathIndex : List Bool → Nat
 
 end CTree
 end Zrnt.SSZ
+
+namespace Zrnt.SSZ
+
+/-- the root of an all-zero subtree of depth `d` (ztyp `ZeroHashes[d]`) -/
+def zeroHash (H : Hash2) : Nat → Chunk
+  | 0 => zeroChunk
+  | d + 1 => H (zeroHash H d) (zeroHash H d)
+
+namespace CTree
+
+/-- ztyp `SubtreeFillToDepth(bottom, depth)`: the perfect tree all of whose `2^depth` leaves are `bottom`
+(in Go the two children are the same node; here sharing is invisible) -/
+def fillToDepth (H : Hash2) (bottom : Chunk) : Nat → CTree
+  | 0 => leaf bottom
+  | d + 1 => node (H (fillToDepth H bottom d).cachedRoot (fillToDepth H bottom d).cachedRoot)
+      (fillToDepth H bottom d) (fillToDepth H bottom d)
+
+/-- ztyp `SubtreeFillToLength(bottom, depth, length)` for `0 < length ≤ 2^depth`: the first `length` leaves are
+`bottom`, everything to the right is a zero subtree represented by a single node holding `ZeroHashes[k]`.
+This is the backing that `SeedRandao` (bottom = the seed) and `ParticipationRegistryView.FillZeroes`
+(bottom = the zero chunk) install by hand instead of going through the typed view API.
+(`length = 0` is outside the domain: at `depth = 0` the Go function decrements a `uint8` depth below zero.) -/
+def fillToLength (H : Hash2) (bottom : Chunk) : Nat → Nat → CTree
+  | 0, _ => leaf bottom
+  | d + 1, length =>
+    if length = 2 ^ (d + 1) then fillToDepth H bottom (d + 1)
+    else if length ≤ 2 ^ d then
+      node (H (fillToLength H bottom d length).cachedRoot (zeroHash H d)) (fillToLength H bottom d length) (leaf (zeroHash H d))
+    else
+      node (H (fillToDepth H bottom d).cachedRoot (fillToLength H bottom d (length - 2 ^ d)).cachedRoot)
+        (fillToDepth H bottom d) (fillToLength H bottom d (length - 2 ^ d))
+
+end CTree
+end Zrnt.SSZ
